@@ -175,7 +175,9 @@ def judgeCase (_k : Nat) (lines : List String) : Verdict := Id.run do
               ("objects_with_expires", has (fun v => (mdGet v.md "!ex").isSome)),
               ("objects_with_user_metadata", has (fun v => v.md.any fun p => !p.1.startsWith "!")),
               ("objects_with_content_type", has (·.ct.isSome)), ("objects_empty", has (·.body.isEmpty)),
-              ("objects_large", lines.countP fun l => l.startsWith "src obj " && (tokens l).any (·.startsWith "body=#")),
+              ("objects_over_1KiB", lines.countP fun l => l.startsWith "src obj " && (tokens l).any (·.startsWith "body=#")),
+              ("objects_over_multipart_threshold_5MiB", lines.countP fun l => l.startsWith "src obj " && (tokens l).any fun t =>
+                t.startsWith "body=#" && (match (t.splitOn ":").getLast? with | some n => n.toNat! > 5242880 | none => false)),
               ("destination_objects_before", pre.objs.length)],
     samples := [String.intercalate ";" ((lines.filter fun l => l.startsWith "src obj " || l.startsWith "mig ").take 6)]
   }
